@@ -11,7 +11,6 @@ mod workload;
 fn main() {
     let args = verif_core::Args::parse();
     let code = match args.prop.as_str() {
-        "SMOKE" => smoke(&args),
         "C05" => c05::run(&args),
         "C07" => c07::run(&args),
         other => {
@@ -20,46 +19,4 @@ fn main() {
         }
     };
     std::process::exit(code);
-}
-
-fn smoke(args: &verif_core::Args) -> i32 {
-    use warp_core::ProvenanceStore;
-    for case in 0..6u64 {
-        let mut rng = verif_core::Rng::for_case(args.seed, "SMOKE", case);
-        let shape = workload::Shape {
-            worldlines: 1 + (case as usize % 3),
-            max_heads: 4,
-            target_ticks: 3 + case,
-            twin_initial: case % 2 == 1,
-        };
-        let mut h = workload::Hist::new(&mut rng, shape);
-        if let Err(e) = h.run_to(&mut rng, shape.target_ticks) {
-            println!("ERR {e}");
-            return 2;
-        }
-        println!("{}", verif_core::Value::to_string(&h.describe()));
-        for w in &h.wls {
-            let n = h.prov.len(w.id).unwrap();
-            let mut roots = Vec::new();
-            for t in 0..n {
-                let e = h.prov.entry(w.id, warp_core::WorldlineTick::from_raw(t)).unwrap();
-                let p = e.patch.as_ref().unwrap();
-                roots.push(format!(
-                    "{}:{}ops/{}r",
-                    verif_core::hex4(&e.expected.state_root),
-                    p.ops.len(),
-                    e.tick_receipt.as_ref().map_or(0, |r| r.entries().len())
-                ));
-            }
-            println!("  wl {} ticks {} {:?}", verif_core::hex4(w.id.as_bytes()), n, roots);
-            let live = &h.live[&w.id];
-            println!(
-                "  live len {} with obs {} tx_counter {:?}",
-                live.len(),
-                live.iter().filter(|l| l.obs.is_some()).count(),
-                live.last().and_then(|l| l.obs.as_ref()).and_then(|o| o.tx_counter)
-            );
-        }
-    }
-    0
 }
